@@ -4,7 +4,7 @@
    it is what the correspondence check establishes on every run.  The theorems
    are the structural laws the property names, for arbitrary sub-expressions,
    and the independence of the answer from the fuel. *)
-From YQ Require Import Base.Str Model.Node Model.Store Model.Eval Proofs.EvalLaws Proofs.EvalFuel Proofs.EvalTotal Proofs.GlobProofs Proofs.EvalNoPanic Proofs.GlobSpec.
+From YQ Require Import Base.Str Model.Node Model.Store Model.Eval Proofs.EvalLaws Proofs.EvalFuel Proofs.EvalTotal Proofs.GlobProofs Proofs.EvalNoPanic Proofs.GlobSpec Proofs.EvalLaws2.
 
 (* `|` composes *)
 Theorem C01_pipe_composes : forall f l r ro vs ctx st,
@@ -12,6 +12,16 @@ Theorem C01_pipe_composes : forall f l r ro vs ctx st,
   bind (eval f l ro vs ctx st) (fun ol => eval f r ro vs (fst ol) (snd ol)).
 Proof. exact pipe_composes. Qed.
 Print Assumptions C01_pipe_composes.
+
+(* ... and is associative: `(a | b) | c` and `a | (b | c)` have the same answer (results, store, error) -- whichever
+   has an answer with some fuel, the other has it with one more unit (and then with any larger fuel) *)
+Theorem C01_pipe_associative : forall f a b c ro vs ctx st,
+  (eval f (EPipe (EPipe a b) c) ro vs ctx st <> OutOfFuel ->
+   eval (S f) (EPipe a (EPipe b c)) ro vs ctx st = eval f (EPipe (EPipe a b) c) ro vs ctx st) /\
+  (eval f (EPipe a (EPipe b c)) ro vs ctx st <> OutOfFuel ->
+   eval (S f) (EPipe (EPipe a b) c) ro vs ctx st = eval f (EPipe a (EPipe b c)) ro vs ctx st).
+Proof. intros. split; [apply pipe_assoc_lr | apply pipe_assoc_rl]. Qed.
+Print Assumptions C01_pipe_associative.
 
 (* `,` concatenates its operands' results ([union_mode] = Some false: the operands do not hand back the very same
    list object; always the case when one of them builds a new list, C01_union_appends_fresh) *)
@@ -69,6 +79,39 @@ Theorem C01_select_sublist : forall f e ro vs ctx st o,
     fst o = List.map snd (filter fst (combine mask ctx)).
 Proof. exact select_sublist. Qed.
 Print Assumptions C01_select_sublist.
+
+(* reduce: source and initial value are evaluated once on the context; the block then runs once per source element,
+   in order, on whatever the previous run returned ... *)
+Theorem C01_reduce_is_fold : forall f src x init body ro vs ctx st,
+  eval (S f) (EReduce src x init body) ro vs ctx st =
+  bind (eval f src ro vs ctx st) (fun oa =>
+  bind (eval f init ro vs ctx (snd oa)) (fun oi =>
+  iter (fun it acc st0 => eval f body (ret_ro init ro) ((x, [it]) :: vs) acc st0) (fst oa) (fst oi) (snd oi))).
+Proof. exact reduce_is_fold. Qed.
+Print Assumptions C01_reduce_is_fold.
+
+(* ... and every element is visited with the accumulator its predecessors produced, whatever that accumulator holds
+   (a block that yielded nothing for an earlier element does not end the fold) *)
+Theorem C01_fold_visits_every_element : forall (step : ptr -> list ptr -> store -> res (list ptr * store)) l1 p l2 a st,
+  iter step (l1 ++ p :: l2) a st =
+  bind (iter step l1 a st) (fun o =>
+  bind (step p (fst o) (snd o)) (fun o' => iter step l2 (fst o') (snd o'))).
+Proof. intros. apply iter_visits_every_element. Qed.
+Print Assumptions C01_fold_visits_every_element.
+
+Theorem C01_reduce_empty_source : forall f src x init body ro vs ctx st st1,
+  eval f src ro vs ctx st = Ok (nil, st1) ->
+  eval (S f) (EReduce src x init body) ro vs ctx st = eval f init ro vs ctx st1.
+Proof. exact reduce_empty_source. Qed.
+Print Assumptions C01_reduce_empty_source.
+
+(* non-vacuity: `.[] as $i ireduce (0; $i | select(. > 1))` on [3, 1, 2] is 2 -- the block yields nothing for 1 and the
+   fold goes on *)
+Example C01_example_fold_restarts :
+  run (EReduce (EIndex ESelf None) [105] (ELit TInt [48]) (EPipe (EVar [105]) (ESelect (EBin OGt ESelf (ELit TInt [49])))))
+      (Seq [(RIdx 0, Scalar TInt [51]); (RIdx 1, Scalar TInt [49]); (RIdx 2, Scalar TInt [50])])
+  = tag_ok ++ ser_node (Scalar TInt [50]) ++ [10].
+Proof. vm_compute. reflexivity. Qed.
 
 (* unbounded nesting: the answer (results, error, panic) does not depend on the fuel once sufficient *)
 Theorem C01_fuel_independent : forall f f' e ro vs ctx st r,
